@@ -99,6 +99,11 @@ func checkC10(c *Ctx) {
 	ruleUnknownFields(c, pf)
 	ruleRejectionTotal(c, pf)
 	ruleConfigOnlyFromParser(c, pf, "R10.6")
+	// R10.7 a value that fails to convert is a rejection, never a silent fallback to something the file does not say
+	ruleErrorsReturnedAs(c, pf.regionFuncs(), "R10.7", nil)
+	c.MinCount("R10.7", 8)
+	ruleEvCodeProvenance(c, pf)
+	c.MinCount("R10.8", 2)
 	c.MinCount("R10.1", 30)
 	c.MinCount("R10.1b", 5)
 	c.MinCount("R10.2", 10)
@@ -115,7 +120,8 @@ func checkC10(c *Ctx) {
 func sourcesOf(pf *parserFacts, v ssa.Value, leaves map[*types.Var]string) (data, ctl map[string]bool) {
 	data, ctl = map[string]bool{}, map[string]bool{}
 	seen := map[ssa.Value]bool{}
-	var collectTerm = func(t *Term, into map[string]bool) {
+	var collectTermIn func(fn *ssa.Function, t *Term, into map[string]bool, depth int)
+	collectTermIn = func(fn *ssa.Function, t *Term, into map[string]bool, depth int) {
 		t.Walk(func(x *Term) bool {
 			if (x.Op == "fieldaddr" || x.Op == "field") && x.Obj != nil {
 				if fv, ok := x.Obj.(*types.Var); ok {
@@ -124,9 +130,26 @@ func sourcesOf(pf *parserFacts, v ssa.Value, leaves map[*types.Var]string) (data
 					}
 				}
 			}
+			// a parameter of a parser helper stands for what its call sites pass
+			if x.Op == "param" && fn != nil && depth < 4 && fn != pf.fn && pf.region[topFunc(fn)] && fn.Parent() == nil {
+				if sites, ok := staticCallSites(pf.p, fn); ok {
+					for i, prm := range fn.Params {
+						if prm.Name() != x.Aux {
+							continue
+						}
+						for _, ci := range sites {
+							if i < len(ci.Common().Args) {
+								collectTermIn(ci.Parent(), pf.view(ci.Parent()).Term(ci.Common().Args[i]), into, depth+1)
+							}
+						}
+					}
+				}
+			}
 			return true
 		})
 	}
+	curFn := (*ssa.Function)(nil)
+	collectTerm := func(t *Term, into map[string]bool) { collectTermIn(curFn, t, into, 0) }
 	var rec func(v ssa.Value, depth int)
 	rec = func(v ssa.Value, depth int) {
 		if v == nil || seen[v] || depth > 12 {
@@ -138,6 +161,9 @@ func sourcesOf(pf *parserFacts, v ssa.Value, leaves map[*types.Var]string) (data
 			return
 		}
 		vw := pf.view(fn)
+		saved := curFn
+		curFn = fn
+		defer func() { curFn = saved }()
 		collectTerm(vw.Term(v), data)
 		switch x := v.(type) {
 		case *ssa.Phi:
@@ -174,10 +200,40 @@ func sourcesOf(pf *parserFacts, v ssa.Value, leaves map[*types.Var]string) (data
 				}
 			}
 		case *ssa.Extract:
+			if call, ok := x.Tuple.(*ssa.Call); ok && regionCallee(pf, call) != nil {
+				recReturns(pf, call, x.Index, func(r ssa.Value, b *ssa.BasicBlock) {
+					rec(r, depth+1)
+					for _, at := range pf.view(b.Parent()).GuardsAt(b) {
+						collectTermIn(b.Parent(), at.Cond, ctl, 0)
+					}
+				})
+				break
+			}
 			rec(x.Tuple, depth+1)
 		case *ssa.Call:
+			if regionCallee(pf, x) != nil && x.Call.Signature().Results().Len() == 1 {
+				recReturns(pf, x, 0, func(r ssa.Value, b *ssa.BasicBlock) {
+					rec(r, depth+1)
+					for _, at := range pf.view(b.Parent()).GuardsAt(b) {
+						collectTermIn(b.Parent(), at.Cond, ctl, 0)
+					}
+				})
+				break
+			}
 			for _, a := range x.Call.Args {
 				rec(a, depth+1)
+			}
+		case *ssa.Parameter:
+			// parameter of a parser helper: what the call sites pass, and what selects the call
+			if pf.region[topFunc(x.Parent())] && x.Parent() != pf.fn {
+				if sites, ok := staticCallSites(pf.p, x.Parent()); ok {
+					idx := paramIndex(x)
+					for _, ci := range sites {
+						if idx >= 0 && idx < len(ci.Common().Args) {
+							rec(ci.Common().Args[idx], depth+1)
+						}
+					}
+				}
 			}
 		}
 	}
@@ -186,6 +242,28 @@ func sourcesOf(pf *parserFacts, v ssa.Value, leaves map[*types.Var]string) (data
 		delete(ctl, k)
 	}
 	return
+}
+
+// regionCallee: the callee of call if it is a named helper inside the parser region.
+func regionCallee(pf *parserFacts, call *ssa.Call) *ssa.Function {
+	callee := call.Call.StaticCallee()
+	if callee != nil && callee.Parent() == nil && pf.region[callee] && callee != pf.fn {
+		return callee
+	}
+	return nil
+}
+
+// recReturns visits result idx of every normal return of call's (region) callee.
+func recReturns(pf *parserFacts, call *ssa.Call, idx int, f func(r ssa.Value, b *ssa.BasicBlock)) {
+	callee := call.Call.StaticCallee()
+	for _, b := range callee.Blocks {
+		if b == callee.Recover {
+			continue
+		}
+		if r, ok := b.Instrs[len(b.Instrs)-1].(*ssa.Return); ok && idx < len(r.Results) {
+			f(r.Results[idx], b)
+		}
+	}
 }
 
 func parentOf(v ssa.Value) *ssa.Function {
@@ -280,7 +358,7 @@ func ruleFieldCorrespondenceFor(c *Ctx, pf *parserFacts, leaves map[*types.Var]s
 		}
 	}
 	// map/slice-valued destinations filled by MapUpdate / append: their sources count as reached
-	for _, b := range pf.fn.Blocks {
+	for _, b := range pf.regionBlocks() {
 		for _, in := range b.Instrs {
 			switch x := in.(type) {
 			case *ssa.MapUpdate:
@@ -474,7 +552,7 @@ func ruleBounds(c *Ctx, pf *parserFacts) {
 		vw := pf.view(fs.Store.Parent())
 		t := vw.Term(fs.Val)
 		b := boundsOf(vw.GuardsAt(fs.Store.Block()), t.String())
-		phi, isPhi := fs.Val.(*ssa.Phi)
+		phi, isPhi := throughCtor(c.P, fs.Val).(*ssa.Phi) // also a search extracted into a helper with a single return
 		okEdges := isPhi
 		if isPhi {
 			for _, e := range phi.Edges {
@@ -561,7 +639,7 @@ func ruleVocabularies(c *Ctx, pf *parserFacts) {
 		}
 	}
 	// action mapping values
-	for _, b := range pf.fn.Blocks {
+	for _, b := range pf.regionBlocks() {
 		for _, in := range b.Instrs {
 			mu, ok := in.(*ssa.MapUpdate)
 			if !ok {
@@ -665,4 +743,71 @@ func ruleRejectionTotal(c *Ctx, pf *parserFacts) {
 		}
 	}
 	_ = token.NoPos
+}
+
+// ruleEvCodeProvenance: R10.8 a key/axis name is turned into an event code only by a hit in the name table or by a
+// full-string strconv parse; anything laxer (a scanning parser that ignores trailing text, a prefix match) accepts names
+// the file does not say.
+func ruleEvCodeProvenance(c *Ctx, pf *parserFacts) {
+	fn := c.P.Func(pkgConfig, "", "TomlKeyToEvCode")
+	if !c.Require(fn != nil, "R10.8", "anchor:config.TomlKeyToEvCode", "function not found") {
+		return
+	}
+	c.Fn(shortFn(fn))
+	vw := pf.view(fn)
+	n := 0
+	for _, b := range fn.Blocks {
+		if b == fn.Recover {
+			continue
+		}
+		r, ok := b.Instrs[len(b.Instrs)-1].(*ssa.Return)
+		if !ok || len(r.Results) != 2 {
+			continue
+		}
+		if k, isK := r.Results[1].(*ssa.Const); !isK || k.Value != nil {
+			continue // error return
+		}
+		n++
+		key := fmt.Sprintf("config.TomlKeyToEvCode/success-return#%d/provenance", n)
+		t := vw.Term(r.Results[0]).StripConv()
+		src := ""
+		var visit func(t *Term) bool
+		visit = func(t *Term) bool {
+			t = t.StripConv()
+			switch t.Op {
+			case "extract":
+				if len(t.Args) == 1 {
+					a := t.Args[0]
+					if a.Op == "call" && strings.HasPrefix(a.Aux, "strconv.Parse") || a.Op == "call" && strings.HasPrefix(a.Aux, "strconv.Atoi") {
+						src = "strconv parse of the whole string"
+						return t.Aux == "0"
+					}
+					if a.Op == "lookup" || a.Op == "lookupok" {
+						src = "table hit"
+						return true
+					}
+				}
+			case "lookup":
+				src = "table hit"
+				return true
+			case "phi":
+				okAll := len(t.Args) > 0
+				for _, a := range t.Args {
+					if !visit(a) {
+						okAll = false
+					}
+				}
+				return okAll
+			}
+			return false
+		}
+		if visit(t) {
+			c.OK("R10.8", key, c.P.Pos(r.Pos()), "returned code is a "+src)
+		} else {
+			c.Bad("R10.8", key, c.P.Pos(r.Pos()), "the returned event code "+truncate(t.String(), 160)+" is neither a table hit nor the result of a full-string strconv parse: a lax conversion accepts names the file does not contain")
+		}
+	}
+	if n == 0 {
+		c.Undec("R10.8", "config.TomlKeyToEvCode/success-returns", c.P.Pos(fn.Pos()), "no success return found")
+	}
 }
